@@ -81,6 +81,9 @@ def client_negotiation_stims(seed, tier):
                     if ca and len(out) % 3 == 0:
                         other = [e for e in encs if e not in ca] + ['identity']
                         meta = [{'n': 'grpc-accept-encoding', 'bin': False, 'v': list(','.join(other if len(out) % 2 else encs + ['identity']).encode())}]
+                    # likewise a grpc-encoding entry (only where the client compresses: what is announced is what the body is compressed with)
+                    if cs and len(out) % 4 == 1:
+                        meta = meta + [{'n': 'grpc-encoding', 'bin': False, 'v': list(('identity' if len(out) % 8 == 1 else [e for e in encs if e != cs][0]).encode())}]
                     out.append({'mode': 'client', 'class': 'client_negotiation', 'transport': 'inproc', 'shim': {'cap': 0, 'rq': 0, 'wq': 0, 'pend': 0}, 'shape': shape,
                                 'server': {'send': ss, 'accept': sa, 'max_dec': -1, 'max_enc': -1},
                                 'client': {'send': cs, 'accept': list(ca), 'max_dec': -1, 'max_enc': -1, 'clone': rnd.random() < 0.4},
@@ -220,6 +223,43 @@ def mock_metadata_stims(seed, tier):
                                     'req': {'meta': [], 'msgs': [[1]]}, 'script': {'init_meta': [], 'msgs': [], 'end': {'ok': True}, 'fail_before': False, 'no_compress': False},
                                     'mock': {'status': 200, 'headers': headers, 'body_chunks': frames, 'has_trailers': True, 'trailers': trailers, 'first_flagged': False,
                                              'hmeta': hmeta, 'tmeta': tmeta}})
+    return out
+
+
+def mock_status_stims(seed, tier):
+    """canned error responses of a peer that is not tonic: every code, message absent / plain / percent-encoded UTF-8, details of
+    0..5 bytes base64-coded with or without padding, in the headers of a trailers-only response or in the trailers after a message."""
+    import base64, struct
+    out = []
+    msgs = [('', []), ('boom', list(b'boom')), ('caf%C3%A9%20%25', list('caf\u00e9 %'.encode()))]
+    for shape in ('unary', 'sstream'):
+        for code in range(1, 17):
+            for where in ('headers', 'trailers'):
+                for dn in range(0, 6):
+                    for pad in (True, False):
+                        if tier != 'thorough' and (code + dn + (1 if pad else 0)) % 3:
+                            continue
+                        wire_msg, msg = msgs[(code + dn) % 3]
+                        details = [(7 * i + code) % 256 for i in range(dn)]
+                        st = [{'n': 'grpc-status', 'v': list(str(code).encode())}]
+                        if wire_msg:
+                            st.append({'n': 'grpc-message', 'v': list(wire_msg.encode())})
+                        if dn:
+                            b = base64.b64encode(bytes(details))
+                            st.append({'n': 'grpc-status-details-bin', 'v': list(b if pad else b.rstrip(b'='))})
+                        headers = [{'n': 'content-type', 'v': list(b'application/grpc')}]
+                        frames, trailers, has_tr = [], [], False
+                        if where == 'headers':
+                            headers += st
+                        else:
+                            if shape == 'sstream':
+                                frames = [[0, 0, 0, 0, 1, 9]]
+                            trailers, has_tr = st, True
+                        out.append({'mode': 'mock', 'class': 'mock_status', 'transport': 'mock', 'shim': {'cap': 0, 'rq': 0, 'wq': 0, 'pend': 0}, 'shape': shape,
+                                    'server': {'send': [], 'accept': [], 'max_dec': -1, 'max_enc': -1}, 'client': {'send': '', 'accept': [], 'max_dec': -1, 'max_enc': -1},
+                                    'req': {'meta': [], 'msgs': [[1]]}, 'script': {'init_meta': [], 'msgs': [], 'end': {'ok': True}, 'fail_before': False, 'no_compress': False},
+                                    'mock': {'status': 200, 'headers': headers, 'body_chunks': frames, 'has_trailers': has_tr, 'trailers': trailers, 'first_flagged': False,
+                                             'st': {'code': code, 'msg': msg, 'details': details}}})
     return out
 
 
@@ -380,6 +420,7 @@ def check(prop, tier, seed):
         fams.append(('client_negotiation', client_negotiation_stims(seed, tier)))
     if prop == 'C02':
         fams.append(('wire_responses', wire_stims(seed, tier)))
+        fams.append(('mock_statuses', mock_status_stims(seed, tier)))
         fams.append(('response_table', mock_table_stims(seed, tier, mc)))
         fams.append(('compressed_limits', compressed_limit_stims(seed, tier)))
         fams.append(('long_streams', long_stream_stims(seed, tier)))
